@@ -719,8 +719,9 @@ def serialise(fgd: FGD, file: IO[bytes]) -> None:
     This is expected to be in engine format - _CBaseEntity_ is present, with all others based on it,
     and no other base entities.
     """
-    CBaseEntity = fgd.entities.pop('_cbaseentity_')
-    all_ents: list[EntityDef] = list(fgd)
+    # Handled separately, but leave the FGD we were given as it is.
+    CBaseEntity = fgd.entities['_cbaseentity_']
+    all_ents: list[EntityDef] = [ent for ent in fgd if ent is not CBaseEntity]
 
     print('Computing string sizes...')
     # We need the database for CBaseEntity, but not to include it with anything else.
